@@ -765,6 +765,20 @@ Fixpoint run (e : env) (w : world) (ops : list op) : list (res (world * out)) :=
     end
   end.
 
+(* the world after a history ([Fault] is kept) *)
+Fixpoint exec (e : env) (w : world) (ops : list op) : res world :=
+  match ops with
+  | [] => Ok w
+  | o :: r =>
+    match step e w o with
+    | Ok (w', _) => exec e w' r
+    | Err x => Err x
+    | Fault => Fault
+    end
+  end.
+
+Definition is_ok {A} (r : res A) : bool := match r with Ok _ => true | _ => false end.
+
 Definition release_all (n : nat) : list op := map OpRelease (seq 0 n).
 
 Definition init_world (nh : nat) (script : list bool) : world :=
